@@ -162,8 +162,39 @@ def strat_hist(tier):
     })
 
 
+def registry_pair(case, ctx, cfg):
+    """two instances of one registered id are independent: reconfiguring one leaves the other inside its advertised spaces"""
+    from gym_gridverse.gym import STRING_TO_YAML_FILE
+    ids = {v: k for k, v in STRING_TO_YAML_FILE.items()}
+    if cfg['mods'] or cfg['base'] not in ids:
+        return
+    for k, name in enumerate(reps.NAMES):
+        other = reps.NAMES[(k + 1) % 3]
+        env = guarded(ctx, 'gym.make', gym.make, ids[cfg['base']], disable_env_checker=True).unwrapped
+        env.outer_env.inner_env.set_seed(case['seed'])
+        env.set_observation_representation(name)
+        twin = gym.make(ids[cfg['base']], disable_env_checker=True).unwrapped
+        obs = guarded(ctx, 'gym reset', env.reset)
+        twin.set_observation_representation(other)      # reconfigure the *other* instance in mid-episode
+        twin.outer_env.inner_env.set_seed(case['seed'] + 1)
+        twin.reset()
+        n = env.action_space.n
+        for i, ai in enumerate(case['actions'][:12]):
+            obs, r, done, info = guarded(ctx, 'gym step', env.step, ai % n)
+            if not env.observation_space.contains(obs):
+                ctx.fail(f'{ids[cfg["base"]]} [{name}]: step {i}: observation outside the advertised gym observation_space after a *second instance* of the same id was switched to "{other}"',
+                         {'kind': 'gym_space'})
+            check_in_space(ctx, f'{ids[cfg["base"]]} [{name}] step {i} observation (second instance switched to {other})', env.outer_env.observation_representation.space, obs, OBS_KEYS)
+            twin.step(ai % n)
+            if done:
+                env.reset()
+        ctx.ev.count('two_instances_of_one_id')
+
+
 def oracle_hist(case, ctx):
-    for cfg in case['cfgs']:
+    for k, cfg in enumerate(case['cfgs']):
+        if (case['seed'] + k) % 3 == 0:
+            registry_pair(case, ctx, cfg)
         for name in reps.NAMES:
             inner = guarded(ctx, 'build', configs.build, cfg, case['seed'])
             try:
@@ -205,5 +236,5 @@ CHECKS = [
           rule='all 2^9-1 type subsets x 4 colour subsets (16 thorough): every object of the space as a grid cell and as the held item, for states and observations x 3 representations'),
     Check('trajectories', oracle_hist, strategy=strat_hist, examples={'quick': 4, 'thorough': 12}, shards={'quick': 4, 'thorough': 16},
           rule='all 22 shipped configurations (and perturbed, non-square ones) x 3 representations through OuterEnv and GymEnvironment: every reset/step output inside the advertised gym spaces',
-          required=['rep:default', 'rep:no-overlap', 'rep:compact', 'perturbed']),
+          required=['rep:default', 'rep:no-overlap', 'rep:compact', 'perturbed', 'two_instances_of_one_id']),
 ]
